@@ -38,8 +38,35 @@ def run_lines(exe, lines, env=None, chunk=400, timeout=600, workers=None):
             for k in range(min(len(out), len(c))):
                 outs[i + k] = out[k]
             if rc != 0 or len(out) < len(c):
-                incidents.append((i + min(len(out), len(c)), rc, err))
+                if len(out) < len(c):
+                    # the process died or hung while answering this request
+                    incidents.append((i + len(out), rc, err))
+                else:
+                    # every request was answered but the process reported a problem at exit
+                    # (LeakSanitizer): bisect the chunk for a single request that reproduces it
+                    j = culprit(exe, c, env, timeout)
+                    incidents.append((i + (j if j is not None else 0), rc, err))
     return outs, incidents
+
+
+def culprit(exe, lines, env, timeout):
+    """Index of one request in `lines` that alone makes the process exit non-zero (or None)."""
+    lo, hi = 0, len(lines)
+    rc, _, _ = _run_chunk((exe, lines, env, timeout))
+    if rc == 0:
+        return None
+    while hi - lo > 1:
+        mid = (lo + hi) // 2
+        rc1, _, _ = _run_chunk((exe, lines[lo:mid], env, timeout))
+        if rc1 != 0:
+            hi = mid
+        else:
+            rc2, _, _ = _run_chunk((exe, lines[mid:hi], env, timeout))
+            if rc2 != 0:
+                lo = mid
+            else:
+                return lo      # only the combination fails: report the first
+    return lo
 
 
 def isolate(exe, line, env=None, timeout=60):
@@ -58,6 +85,8 @@ def canon_err(resp):
         return None
     if resp.startswith('R 0 ;') or resp.startswith('R 0 '):
         return resp
+    if resp.startswith('R UB') or resp.startswith('R FUEL') or resp.startswith('R CRASH'):
+        return resp            # model-only flags are never a legitimate error code
     if resp.startswith('R '):
-        return 'ERR'
+        return 'ERR' + (' CONTRACT' if 'CONTRACT' in resp else '')
     return resp
